@@ -30,6 +30,9 @@ OB = 'serialize::OutputBuffer::'
 SOB = 'serialize::SealableOutputBuffer::'
 H0 = 'io_loop::io_loop_handle::IoLoopHandle::'
 
+GROW = {'append', 'extend', 'extend_from_slice', 'push', 'resize', 'insert', 'splice'}
+SHRINK = {'clear', 'drain', 'truncate', 'remove', 'split_off', 'pop', 'swap_remove', 'retain'}
+
 
 def run(ctx):
     with ctx.rule('R01.1', 'single writer: io::Write::write* is called on the transport only from write_to_stream', floor=2) as r:
@@ -90,8 +93,6 @@ def run(ctx):
         adt = ctx.adt('serialize::OutputBuffer')
         r.check('vector-private', all(f['vis'] == 'restricted(serialize)' for f in adt['variants'][0]['fields']), None, built=[f['vis'] for f in adt['variants'][0]['fields']])
         # every Vec-mutating call on `<x>.0` of an OutputBuffer, by function
-        GROW = {'append', 'extend', 'extend_from_slice', 'push', 'resize', 'insert', 'splice'}
-        SHRINK = {'clear', 'drain', 'truncate', 'remove', 'split_off', 'pop', 'swap_remove', 'retain'}
         seen = {}
         for p, fn in ctx.fns.items():
             if 'hir' not in fn or not p.startswith(('serialize::', '<serialize::')):
@@ -176,6 +177,27 @@ def run(ctx):
                    'serialize::OutputBuffer', 'channel::Channel', 'connection::Connection'):
             cl = ctx.impls_of('std::clone::Clone', ty)
             r.check('not-clone:%s' % ty.split('::')[-1], not cl, None, built=[i['self'] for i in cl], why='a cloned handle would be a second sender on the same channel id')
+
+    with ctx.rule('R01.7', "the write loop's accessors denote the byte vector itself: len/is_empty/index/clear/drain_written forward unconditionally, whatever the seal", floor=6) as r:
+        IDX = '<serialize::SealableOutputBuffer as std::ops::Index<std::ops::RangeFrom<usize>>>::index'
+        IDX0 = '<serialize::OutputBuffer as std::ops::Index<std::ops::RangeFrom<usize>>>::index'
+        VEC = 'self.buf.0'
+        table = ((SOB + 'len', ['self'], ['std::vec::Vec::len(%s)' % VEC], [], 'bytes still to write'),
+                 (SOB + 'is_empty', ['self'], ['std::vec::Vec::is_empty(%s)' % VEC, '(std::vec::Vec::len(%s) == 0)' % VEC], [], 'has_data_to_write'),
+                 (SOB + 'clear', ['self'], ['std::vec::Vec::clear(%s)' % VEC, '()'], ['std::vec::Vec::clear(%s)' % VEC], 'everything was written'),
+                 (SOB + 'drain_written', ['self', 'n'], ['()', 'std::vec::Vec::drain(%s, std::ops::Range{end: n, start: 0})' % VEC], ['std::vec::Vec::drain(%s, std::ops::Range{end: n, start: 0})' % VEC],
+                  'exactly the written prefix leaves the buffer, sealed or not'),
+                 (IDX, ['self', 'index'], ['self.buf[index]', 'self.buf.0[index]'], [], 'the unsent suffix'),
+                 (IDX0, ['self', 'index'], ['self.0[index]'], [], 'the unsent suffix'))
+        for fnp, params, values, effects, why in table:
+            ev = ctx.evaluator(3, inline_filter=lambda q: q.startswith(('serialize::', '<serialize::')))
+            t = ev.run_fn(fnp, [('var', x, -i - 1) for i, x in enumerate(params)])
+            leaf = [e for e in ev.events if e.kind in ('call', 'assign', 'assignop') and not (isinstance(e.extra, dict) and e.extra.get('inlined'))]
+            cond = [e for e in leaf if [g for g in e.guards if g[2] != 'inline']]
+            eff = [P.effect_of(e) for e in leaf if e.kind != 'call' or e.callee.split('::')[-1] in GROW | SHRINK or e.callee.startswith(('serialize::', '<serialize::'))]
+            nm = fnp.split('::')[-1] if not fnp.startswith('<') else ('index' if 'Sealable' in fnp else 'index0')
+            r.check('forward:%s' % nm, S.show(t) in values and not cond and eff == effects, ctx.site(fnp), built={'value': S.show(t), 'effects': eff, 'conditional': [S.show(e.term) for e in cond]},
+                    expected={'value': values[0], 'effects': effects, 'conditional': []}, why=why + '; a cursor, a seal gate or an offset here desynchronises the write position from the buffer')
 
     with ctx.rule('R01.6', 'unsent data re-arms the socket for writable after each event batch', floor=2) as r:
         evs, _ = ctx.events('io_loop::IoLoop::run_io_loop')
